@@ -7,7 +7,7 @@ from ..an import avoiding_path, flows_from_calls, is_method_call, reaching_defs,
 from ..cfg import calls_at
 from ..core import Checker
 from ..loader import Func, norm, walk_expr, walk_own
-from ..prov import call_name, expand1, get_arg
+from ..prov import call_name, expand1, get_arg, scope_of
 from .build_common import check_zip_alignment_all, node_of
 from .C09 import rows_rule
 from .C17 import _children
@@ -104,7 +104,16 @@ def _walk(ck: Checker) -> None:
             ck.require(root in t and "path" in t, "C02.walk", bt, n, "relative key via relparts(root, path)", f"relative key {t} is not relative to the staged path")
             continue
         # string slicing form: root[len(path) + 1:].split(fs.sep)
-        ok = f"{root}[len(path) + 1:]" in t and ".split(fs.sep)" in t
+        from ..prov import expand_txt as _etxt
+
+        import re as _re
+
+        t2 = t
+        for nm_ in {x.id for x in walk_expr(v) if isinstance(x, ast.Name)}:
+            ds_ = [d_ for d_ in scope_of(bt).get(nm_) if d_.kind in ("assign", "annassign")]
+            if len(ds_) == 1 and isinstance(ds_[0].value, ast.Attribute) and not bt.has_param(nm_):
+                t2 = _re.sub(rf"\b{nm_}\b", norm(ds_[0].value), t2)  # e.g. `sep = fs.sep`
+        ok = any(f"{root}[len(path) + 1:]" in t_ and ".split(fs.sep)" in t_ for t_ in [t, t2] + [norm(z) for z in expand1(prog, bt, v, levels=2)])
         ck.require(ok, "C02.walk", bt, n, "relative key is root with the staged path and one separator cut off, split on the fs separator", f"unrecognised relative key derivation {t}")
         defs = reaching_defs(g, n.id, "path")
         okn = bool(defs) and all(isinstance(getattr(d.ast, "value", None), ast.Call) and is_method_call(d.ast.value, "rstrip") and norm(d.ast.value.func.value) == "path" for d in defs)
@@ -180,19 +189,25 @@ def _checkout_pair(ck: Checker) -> None:
         r = g.reach(starts, skip_node=lambda x: x.id == n.id or x.id in mk, skip_edge=lambda a, l, b: False)
         ck.require(h.id not in r, "C02.checkout.pair", co, h, "every added/modified entry is either created as a directory or checked out as a file", "an added/modified entry can be skipped", construct="materialising loop / NODROP")
     g2 = ck.cfg(cf)
-    srcdefs = [n for n in g2.nodes.values() if n.kind == "stmt" and isinstance(n.ast, ast.Assign) and norm(n.ast.targets[0]) == "cache_path"]
-    ck.require(bool(srcdefs) and all(norm(n.ast.value) == "cache.oid_to_path(change.new.oid.value)" for n in srcdefs), "C02.checkout.pair", cf, srcdefs[0] if srcdefs else cf.node, "link source is the cache path of change.new.oid", f"link source is {[norm(n.ast.value) for n in srcdefs]}")
+    from ..prov import expand_txt as _et
+
+    n_links = 0
     for n in g2.nodes.values():
         for c in calls_at(n):
             cal = ck.res.resolve(cf, c)
             for x in cal:
                 if x.name not in ("__call__", "_relink"):
                     continue
+                n_links += 1
                 sp, dp = ("from_path", "to_path") if x.name == "__call__" else ("cache_info", "path")
                 sa, da = get_arg(c, x, sp), get_arg(c, x, dp)
-                args = (norm(sa) if sa is not None else None, norm(da) if da is not None else None)
-                ck.require(args == ("cache_path", "path"), "C02.checkout.pair", cf, n, "links cache_path -> path", f"link call source/destination are {args}", construct=f"{norm(c)[:60]} / source,dest")
+                # compared after expanding locals: what matters is which object's cache path is linked to which workspace path
+                salts = set(_et(prog, cf, sa)) if sa is not None else set()
+                dalts = set(_et(prog, cf, da)) if da is not None else set()
+                ck.require(salts == {"cache.oid_to_path(change.new.oid.value)"} and dalts == {"path"}, "C02.checkout.pair", cf, n, "links the cache path of change.new.oid -> path",
+                           f"link call source/destination are {sorted(salts)} -> {sorted(dalts)} (expected the cache path of change.new.oid -> path)", construct=f"{norm(c)[:60]} / source,dest")
                 break
+    ck.floor("C02.checkout.pair", n_links, 1, "link / relink calls in _checkout_file")
 
 
 def _load(ck: Checker) -> None:
